@@ -33,7 +33,7 @@ REGISTRY = {
             "cacheMerge_faithful"],
     "C11": ["flag_only_gates_overdraft", "overdraft_gated", "store_independent", "interpreter_keeps_no_state",
             "run_depends_only_on_declared_vars", "run_ignores_undeclared_var", "run_vars_order_irrelevant"],
-    "C12": ["api_failure_is_atomic", "api_is_RunProgram", "apiRun_no_flag", "api_never_panics", "text_run_never_panics", "run_never_panics", "evalExpr_never_panics", "getBalance_store_failure", "run_preload_failure",
+    "C12": ["evalExpr_unbound_var", "evalExpr_zero_denominator", "evalExpr_infix_left_error_wins", "evalExpr_infix_right_error", "evalExpr_infix_mismatched_currency", "evalExprs_first_error", "api_failure_is_atomic", "api_is_RunProgram", "apiRun_no_flag", "api_never_panics", "text_run_never_panics", "run_never_panics", "evalExpr_never_panics", "getBalance_store_failure", "run_preload_failure",
             "meta_store_failure", "runBalancesQuery_no_call"],
     "C13": ["strBody_append", "strBody_body", "string_literal_is_one_token", "string_literal_trailing_backslash", "string_literal_value", "digitsVal_eq_posValue", "digitsVal_append_digit", "ratio_literal_exact", "percent_literal_exact",
             "percent_frac_literal_exact", "portion_var_ratio", "portion_var_percent", "portion_var_ratio_rejected",
